@@ -10,7 +10,7 @@ PID = "C20"
 META = 29
 
 
-def churn(rng, sid, rounds, raw):
+def churn(rng, sid, rounds, raw, cold=False):
     T = rng.choice([257, 509, 1021])
     per = rng.choice([3, 4, 6, 9])
     m = (T - 1) // per                      # entry size (all equal)
@@ -19,6 +19,14 @@ def churn(rng, sid, rounds, raw):
     B = 2 * T                               # compaction runs at least once per B bytes written
     ops = []
     ts = 1
+    if cold:
+        # skewed workload: keys written once that fill whole tables and are never touched again, then churn on the hot keys
+        # only (the cold tables stay below the garbage threshold while the tables behind them fill up with garbage)
+        for h in range(1000, 1000 + rng.choice([1, 2, 3]) * per + rng.randrange(0, per)):
+            k = bytes([97 + h % 3])
+            v = bytes([rng.randrange(256)]) * (m - META - 1)
+            ops.append(["putraw" if raw else "put", "a", str(h), k.hex(), v.hex(), 0, ts])
+            ts += 1
     for r in range(rounds):
         written = 0
         while written + m <= B:
@@ -71,7 +79,7 @@ def scenarios(res):
     rounds = 12 if res.tier == "quick" else 40
     for i in range(n):
         rng = vlib.rng_for(res.seed, PID, i)
-        scs.append(churn(rng, sid, rounds, raw=(i % 2 == 1)))
+        scs.append(churn(rng, sid, rounds, raw=(i % 2 == 1), cold=(i % 4 >= 2)))
         sid += 1
     return scs, ncorpus, 0, n
 
@@ -84,7 +92,8 @@ def nontrivial(sc, obs):
 def run(res):
     c11.run(res, pid=PID, scs_fn=scenarios, nontrivial_fn=nontrivial, extra_pred=bound_pred, shard=3,
             rule="corpus + seeded churn workloads on one store: rounds of overwrite/delete over a fixed key set with equal-sized "
-                 "entries (Put on even cases = primary, PutRaw on odd cases = backup/merge path), Compaction() to completion once "
+                 "entries (Put on even cases = primary, PutRaw on odd cases = backup/merge path; half of the cases start with cold keys "
+                 "that fill whole tables and are never touched again), Compaction() to completion once "
                  "per B=2T bytes written, Stats after each; predicate = reference map + accounting + the closed-form bound on "
                  "allocated after every compaction; non-trivial = >= 5 rounds in which compaction drained a table")
 
